@@ -269,6 +269,14 @@ func (sc *scenario) holdAuto(kind, point, until string) *gate {
 	return g
 }
 
+// holdTimed parks the nth goroutine of the kind that reaches the point for d
+// (a stall, not a directed schedule: running out of d is the plan).
+func (sc *scenario) holdTimed(kind, point string, nth int, d time.Duration) *gate {
+	g := sc.hold(kind, point, nth, d)
+	g.auto = true // until stays empty: only the timer (or open) ends it
+	return g
+}
+
 func (sc *scenario) onPoint(a *actor, point string) {
 	c := sc.counts[point]
 	if c == nil {
@@ -309,6 +317,13 @@ func (sc *scenario) onPoint(a *actor, point string) {
 		close(g.reached)
 		t := time.NewTimer(g.maxHold)
 		defer t.Stop()
+		if g.auto && g.until == "" {
+			select {
+			case <-g.release:
+			case <-t.C:
+			}
+			return
+		}
 		if g.auto {
 			base := sc.count(g.until)
 			if g.until == point {
@@ -1220,6 +1235,17 @@ func randomScenario(w *mon.Worker, name string, rng *mon.Rng, pre func(sc *scena
 	if pre != nil {
 		pre(sc)
 	}
+	// the Run loop stalls now and then in the middle of a notification round while every connection
+	// (the choice and the others) keeps publishing, bursts included: updates of several connections
+	// pile up in the shared channel and are picked up together
+	if nConns > 1 && rng.Bool() {
+		n := rng.Range(3, 6)
+		for k := 0; k < n; k++ {
+			sc.holdTimed("run", "notify.send", rng.Range(1, 15), ms(rng.Range(3, 15)))
+		}
+		sc.desc["run_loop_stalls"] = n
+		w.Count("random_scenarios_with_run_loop_stalls", 1)
+	}
 	drv, release := sc.adopt("drv", "drv")
 	defer release()
 	base := uint32(0)
@@ -1641,6 +1667,52 @@ func directedTickerRefreshUnderHeadTraffic(w *mon.Worker, rng *mon.Rng) {
 	sc.finish(nil)
 }
 
+// the update channel is shared by all connections: while the Run loop is busy,
+// the awaited head of the choice and a strictly newer head of another
+// connection are queued together (both arrival orders). The head of the
+// choice must still reach the waiter - a newer head of a connection that is
+// not the choice says nothing about the choice.
+func directedQueuedTogetherWithNewerHeadOfAnother(w *mon.Worker, order string, rng *mon.Rng) {
+	sc := newScenario(w, "directed/awaited-head-queued-with-newer-head-of-another-connection/"+order, rng)
+	strategy := pool.Strategy(pool.BestPingStrategy)
+	if rng.Bool() {
+		strategy = pool.FirstWorkingConnection
+	}
+	sc.buildOrdered(rng.Perm(2), strategy, time.Hour, func(int) bool { return true }, func(int) time.Duration { return ms(1) })
+	choice := sc.initBest
+	other := 1 - choice
+	sc.desc["schedule"] = fmt.Sprintf("2 connections, no refresh, the choice is %d; waiter for 102 registered; the choice reports 101 and the Run loop is held at notify.send; then (%s) the choice reports 102 and connection %d reports 103; the Run loop is released; nothing else is published: the waiter must return ok", choice, order, other)
+	drv, release := sc.adopt("drv", "drv")
+	defer release()
+	sc.doSet(drv, choice, 100)
+	sc.doSet(drv, other, 100)
+	sc.startRun()
+	sc.maxPlan = ms(1200)
+	g := sc.hold("run", "notify.send", 1, 20*time.Second)
+	sc.spawn("w", "w0", &sc.wgW, func(a *actor) { sc.doWait(a, 102, ms(1200), -1) })
+	sc.awaitCount("subscribe.compared", 1, time.Second)
+	time.Sleep(ms(5))
+	sc.doSet(drv, choice, 101)
+	select {
+	case <-g.reached:
+	case <-time.After(5 * time.Second):
+		w.Inconclusive("directed schedule: the Run loop never reached notify.send")
+		g.open()
+		sc.finish(nil)
+		return
+	}
+	if order == "choice-first" {
+		sc.doSet(drv, choice, 102)
+		sc.doSet(drv, other, 103)
+	} else {
+		sc.doSet(drv, other, 103)
+		sc.doSet(drv, choice, 102)
+	}
+	time.Sleep(ms(10))
+	g.open()
+	sc.finish(nil)
+}
+
 func kindAt(point string) string {
 	switch point {
 	case "notify.send":
@@ -1671,6 +1743,10 @@ func directedCases(thorough bool) []directedCase {
 		cs = append(cs, directedCase{"subscribe-vs-publish", directedSubscribeVsPublish})
 		cs = append(cs, directedCase{"woken-waiter-vs-two-heads", directedWokenWaiterVsTwoHeads})
 		cs = append(cs, directedCase{"full-channel-vs-subscribe", directedFullChannelVsSubscribe})
+		for _, v := range []string{"choice-first", "other-first"} {
+			v := v
+			cs = append(cs, directedCase{"queued-with-newer-head-of-another-" + v, func(w *mon.Worker, rng *mon.Rng) { directedQueuedTogetherWithNewerHeadOfAnother(w, v, rng) }})
+		}
 		for _, v := range []string{"quiet", "heads"} {
 			v := v
 			cs = append(cs, directedCase{"cancel-long-before-timeout-" + v, func(w *mon.Worker, rng *mon.Rng) { directedCancelLongBeforeTimeout(w, v, rng) }})
